@@ -9,7 +9,7 @@ CONFIG = {'gen': ['ConstsC13'],
          'GUID through Marshal->Unmarshal / ToBytes->FromRawBytes; (c) binary inputs of length 0..24; (d) malformed text: corpus of '
          'historical witnesses, groups of other widths, moved/duplicated/deleted/inserted characters, inner white space, truncations, '
          'wrong bracket pairs; distinct = distinct input line; non-trivial = implementation returned a value Half of the decoding/parsing '
-         'cases (chosen by the arguments) use a receiver that has already decoded or parsed another value with every field non-zero.',
+         'cases (chosen by the arguments) use a receiver that has already decoded or parsed another value with every field non-zero. String() is asked before Marshal() on objects that held another value first (text and binary form must agree); an object returned by an earlier parse of the same text is scribbled on before the text is parsed again.',
  'assumptions': ['text inputs are ASCII: strings.TrimSpace/ToLower are modelled on bytes < 0x80 (Unicode white space and case tables are '
                  'not modelled)',
                  'strconv.ParseUint(_,16,n), encoding/hex.DecodeString, strings.Split/Replace, fmt %0Nx and regexp.MatchString on the five '
